@@ -214,7 +214,8 @@ impl PropertyValue {
                     u32::from_le_bytes(bytes[1..5].try_into().expect("slice length checked"))
                         as usize;
                 let mut pos = 5;
-                let mut items = Vec::with_capacity(count);
+                // Every item takes at least one byte, so an untrusted count cannot justify a larger allocation.
+                let mut items = Vec::with_capacity(count.min(bytes.len()));
                 for _ in 0..count {
                     let (item, consumed) = Self::decode_recursive(&bytes[pos..])?;
                     items.push(item);
